@@ -572,6 +572,8 @@ impl DebugSession {
                     Err(_) => break,
                 }
             }
+            #[cfg(bs_verif)]
+            crate::verif::point("fwdout.exit");
         });
 
         let io = self.io.clone();
@@ -605,6 +607,8 @@ impl DebugSession {
                     Err(_) => break,
                 }
             }
+            #[cfg(bs_verif)]
+            crate::verif::point("fwderr.exit");
         });
         #[cfg(bs_verif)]
         crate::verif::point("session.spawned_forwarders");
